@@ -31,6 +31,8 @@
 #include <tao/pegtl/contrib/rep_string.hpp>
 #include <tao/pegtl/contrib/separated_seq.hpp>
 #include <tao/pegtl/contrib/trace.hpp>
+#include <tao/pegtl/contrib/shuffle_states.hpp>
+#include <tao/pegtl/contrib/remove_first_state.hpp>
 
 namespace vh
 {
@@ -161,14 +163,61 @@ namespace vh
       return 0;
    }
 
+   // tags handed to parse() in the shuffled-control runs (C08): not state objects of the state<> rules
+   struct stag
+   {
+      int id;
+   };
+
    template< typename S, typename... Ss >
-   int state_depth( const S& s, const Ss&... /*unused*/ )
+   int state_depth( const S& s, const Ss&... ss )
    {
       if constexpr( std::is_base_of_v< vstate_base, S > ) {
          return s.depth;
       }
+      else if constexpr( std::is_same_v< S, stag > ) {
+         return state_depth( ss... );
+      }
       else {
          return -1;
+      }
+   }
+
+   // Shuffled-control runs: the order of tags the logging control (the Base of shuffle_states<> / remove_first_state<>) must be handed
+   // in every hook; g_shuf_n < 0: not such a run.
+   inline int g_shuf_n = -1;
+   inline int g_shuf_expect[ 4 ] = { 0, 0, 0, 0 };
+
+   template< typename S >
+   int stag_id( const S& s )
+   {
+      if constexpr( std::is_same_v< S, stag > ) {
+         return s.id;
+      }
+      else {
+         return -2;
+      }
+   }
+
+   template< typename... Ss >
+   void shuf_check( const char* hook, const Ss&... ss )
+   {
+      if( g_shuf_n < 0 ) {
+         return;
+      }
+      const int got[] = { stag_id( ss )..., -1 };
+      bool ok = ( int( sizeof...( Ss ) ) == g_shuf_n );
+      for( int i = 0; ok && i < g_shuf_n; ++i ) {
+         ok = ( got[ i ] == g_shuf_expect[ i ] );
+      }
+      if( !ok ) {
+         g_out += "SHUF-BAD ";      // an extra line: disagrees with every model trace, and the oracle reports it
+         g_out += hook;
+         for( std::size_t i = 0; i < sizeof...( Ss ); ++i ) {
+            g_out += ' ';
+            g_out += std::to_string( got[ i ] );
+         }
+         g_out += '\n';
       }
    }
 
@@ -492,26 +541,30 @@ namespace vh
       : pegtl::normal< Rule >
    {
       template< typename ParseInput, typename... States >
-      static void start( const ParseInput& in, States&&... /*unused*/ )
+      static void start( const ParseInput& in, States&&... st )
       {
+         shuf_check( "st", st... );
          ev_m< Mark >( "st", vid< Tag, Rule >, in );
       }
 
       template< typename ParseInput, typename... States >
-      static void success( const ParseInput& in, States&&... /*unused*/ )
+      static void success( const ParseInput& in, States&&... st )
       {
+         shuf_check( "su", st... );
          ev_m< Mark >( "su", vid< Tag, Rule >, in );
       }
 
       template< typename ParseInput, typename... States >
-      static void failure( const ParseInput& in, States&&... /*unused*/ )
+      static void failure( const ParseInput& in, States&&... st )
       {
+         shuf_check( "fa", st... );
          ev_m< Mark >( "fa", vid< Tag, Rule >, in );
       }
 
       template< typename ParseInput, typename... States >
       [[noreturn]] static void raise( const ParseInput& in, States&&... st )
       {
+         shuf_check( "ra", st... );
          ev_m< Mark >( "ra", vid< Tag, Rule >, in );
          pegtl::normal< Rule >::raise( in, st... );
       }
@@ -521,6 +574,7 @@ namespace vh
          -> decltype( Action< Rule >::apply( std::declval< const typename ParseInput::action_t& >(), st... ) )
       {
          const typename ParseInput::action_t action_input( begin, in );
+         shuf_check( "ap", st... );
          emit_m< Mark >( "ap", vid< Tag, Rule > );
          emit_pos( action_input.position() );
          emit_pos( in.position() );
@@ -533,6 +587,7 @@ namespace vh
       static auto apply0( const ParseInput& in, States&&... st )
          -> decltype( Action< Rule >::apply0( st... ) )
       {
+         shuf_check( "a0", st... );
          emit_m< Mark >( "a0", vid< Tag, Rule > );
          emit_pos( in.position() );
          emit( "", state_depth( st... ) );
@@ -585,8 +640,9 @@ namespace vh
       : vcontrol_base< Tag, Rule, true >
    {
       template< typename ParseInput, typename... States >
-      static void unwind( const ParseInput& in, States&&... /*unused*/ )
+      static void unwind( const ParseInput& in, States&&... st )
       {
+         shuf_check( "uw", st... );
          ev( "uw", vid< Tag, Rule >, in );
       }
    };
@@ -741,6 +797,18 @@ namespace vh
 
    // C08: the same case through coverage< Root, Action, Control >(): the logging control wrapped by state_control<> must see
    // exactly what it sees in a plain parse, and the facility's own counters must balance for every rule and branch.
+   template< template< typename... > class Control, int Mode >
+   struct shuf_ctl
+   {
+      template< typename Rule >
+      struct type
+         : std::conditional_t< Mode == 4, pegtl::rotate_states_left< Control< Rule > >,
+              std::conditional_t< Mode == 5, pegtl::rotate_states_right< Control< Rule > >,
+                 std::conditional_t< Mode == 6, pegtl::reverse_states< Control< Rule > >,
+                    std::conditional_t< Mode == 7, pegtl::remove_first_state< Control< Rule > >, pegtl::rotate_states_left< Control< Rule >, 2 > > > > >
+      {};
+   };
+
    template< typename Tag,
              typename Root,
              template< typename... >
@@ -776,7 +844,44 @@ namespace vh
          struct restore_cerr { std::streambuf* b; ~restore_cerr() { std::cerr.rdbuf( b ); } } rc{ old_cerr };
          try {
             bool r = false;
-            if constexpr( Mode == 1 ) {
+            if constexpr( Mode >= 4 ) {
+               // the logging control as the Base of the state-shuffling adaptors of contrib/shuffle_states.hpp and
+               // contrib/remove_first_state.hpp: every hook must be handed the tags in the documented order
+               stag t0{ 0 }, t1{ 1 }, t2{ 2 };
+               struct reset_shuf { ~reset_shuf() { g_shuf_n = -1; } } rs;
+               const auto expect = []( std::initializer_list< int > e ) {
+                  g_shuf_n = int( e.size() );
+                  int i = 0;
+                  for( const int x : e ) {
+                     g_shuf_expect[ i++ ] = x;
+                  }
+               };
+               if constexpr( Mode == 4 ) {        // rotate_states_left< Base >: ( a, b, c ) -> ( b, c, a )
+                  expect( { 1, 2, 0 } );
+                  r = pegtl::parse< Root, Action, shuf_ctl< Control, 4 >::template type >( in, t0, t1, t2 );
+               }
+               else if constexpr( Mode == 5 ) {   // rotate_states_right< Base >: ( a, b, c ) -> ( c, a, b )
+                  expect( { 2, 0, 1 } );
+                  r = pegtl::parse< Root, Action, shuf_ctl< Control, 5 >::template type >( in, t0, t1, t2 );
+               }
+               else if constexpr( Mode == 6 ) {   // reverse_states< Base >, two states
+                  expect( { 1, 0 } );
+                  r = pegtl::parse< Root, Action, shuf_ctl< Control, 6 >::template type >( in, t0, t1 );
+               }
+               else if constexpr( Mode == 7 ) {   // remove_first_state< Base >
+                  expect( { 1, 2 } );
+                  r = pegtl::parse< Root, Action, shuf_ctl< Control, 7 >::template type >( in, t0, t1, t2 );
+               }
+               else if constexpr( Mode == 8 ) {   // a single state: the overloads without a tuple
+                  expect( { 0 } );
+                  r = pegtl::parse< Root, Action, shuf_ctl< Control, 5 >::template type >( in, t0 );
+               }
+               else {                             // rotate_states_left< Base, 2 >, three states: ( a, b, c ) -> ( c, a, b )
+                  expect( { 2, 0, 1 } );
+                  r = pegtl::parse< Root, Action, shuf_ctl< Control, 9 >::template type >( in, t0, t1, t2 );
+               }
+            }
+            else if constexpr( Mode == 1 ) {
                r = pegtl::coverage< Root, Action, Control >( in, result );
             }
             else if constexpr( Mode == 2 ) {
